@@ -602,7 +602,7 @@ def concrete(prelude_path):
     return out
 
 
-def analyse(prelude_path, tier='quick', scratch=None, only=None, canaries=True, arrays=True):
+def analyse(prelude_path, tier='quick', scratch=None, only=None, canaries=True, arrays=True, loops=0, array_laws=0):
     t0 = time.time()
     out = dict(prelude=prelude_path, z3=z3.get_version_string(), obligations=[], canaries=[], notes={})
     try:
@@ -650,6 +650,14 @@ def analyse(prelude_path, tier='quick', scratch=None, only=None, canaries=True, 
     if arrays and not only:
         import vcarray
         out['array'] = vcarray.analyse_array(prelude_path, with_canaries=canaries)
+    if loops and not only:
+        # C26, BOUNDED: clear / find / contains / filled / clone / iteration by bounded unrolling (lengths 0..loops)
+        import vcloops
+        out['loops'] = vcloops.analyse_loops(prelude_path, loops, with_canaries=canaries)
+    if array_laws and not only:
+        # C24, BOUNDED: laws of `implement Equal / Hash for array<T>` by bounded unrolling (lengths 0..array_laws)
+        import vcloops
+        out['array_laws'] = vcloops.analyse_array_laws(prelude_path, array_laws, with_canaries=canaries)
     out['notes']['wall_s'] = round(time.time() - t0, 3)
     return out
 
@@ -661,6 +669,9 @@ def main():
     ap.add_argument('--scratch')
     ap.add_argument('--only', help="type.law filter (replay)")
     ap.add_argument('--concrete', action='store_true', help="emit the differential fidelity test instead")
+    ap.add_argument('--loops', type=int, default=0, help="C26 bounded unrolling of the loop-containing array members: list lengths 0..N")
+    ap.add_argument('--array-laws', type=int, default=0, help="C24 bounded unrolling of Equal / Hash for array<T>: lengths 0..N")
+    ap.add_argument('--only-loops', action='store_true', help="run nothing but the bounded loop obligations (replay)")
     args = ap.parse_args()
     if args.concrete:
         import vcarray
@@ -668,7 +679,16 @@ def main():
         d['array'] = vcarray.concrete_array(args.prelude)
         print(json.dumps(d))
         return 0
-    print(json.dumps(analyse(args.prelude, args.tier, args.scratch, args.only)))
+    if args.only_loops:
+        import vcloops
+        d = {}
+        if args.loops or not args.array_laws:
+            d['loops'] = vcloops.analyse_loops(args.prelude, args.loops or 4, with_canaries=False)
+        if args.array_laws:
+            d['array_laws'] = vcloops.analyse_array_laws(args.prelude, args.array_laws, with_canaries=False)
+        print(json.dumps(d))
+        return 0
+    print(json.dumps(analyse(args.prelude, args.tier, args.scratch, args.only, loops=args.loops, array_laws=args.array_laws)))
     return 0
 
 
